@@ -25,7 +25,8 @@ pub fn snapshot(root: &Path) -> Tree {
         names.sort();
         for p in names {
             let rel = p.strip_prefix(root).unwrap().to_string_lossy().to_string();
-            let md = match fs::symlink_metadata(&p) {
+            // follows symlinks: a directory reached through a link is walked like any other
+            let md = match fs::metadata(&p) {
                 Ok(m) => m,
                 Err(_) => continue,
             };
